@@ -104,6 +104,9 @@ class ScopeGen(object):
         inner = Scope('lambda', sc)       # function-like scope for candidate purposes
         inner.bound.append(t)
         inner.will_bind.add(t)
+        # known finding F46: a closure inside a comprehension that sits directly in a class body
+        # cannot see the comprehension variable in supp; such closures do not read it here
+        inner.comp_in_class = (sc.kind == 'class') or getattr(sc, 'comp_in_class', False)
         elt = self.expr(inner, depth + 1)
         cond = (' if %s' % self.expr(inner, depth + 1)) if self.rng.random() < 0.4 else ''
         kind = self.rng.choice(['list', 'set', 'dict', 'gen'])
@@ -117,7 +120,10 @@ class ScopeGen(object):
 
     def lambda_call(self, sc, depth):
         p = self.fresh('p')
-        inner = Scope('lambda', sc)
+        outer = sc
+        while getattr(outer, 'comp_in_class', False):
+            outer = outer.parent
+        inner = Scope('lambda', outer)
         inner.bound.append(p)
         inner.will_bind.add(p)
         dflt = self.expr(sc, depth + 1)
